@@ -517,7 +517,7 @@ pub fn c02_spec() -> FarmSpec {
     fn admit(n: &Node) -> bool {
         local_names_distinct(n)
     }
-    FarmSpec { prop: "C02", flavor: Flavor::QuickXml, preset: Preset::QuickXml, deny_variant: true, admit, max_programs: 40_000 }
+    FarmSpec { prop: "C02", flavor: Flavor::QuickXml, preset: Preset::QuickXml, deny_variant: true, admit, max_programs: 12_000 }
 }
 
 pub fn run(ctx: &Ctx) {
